@@ -405,7 +405,15 @@ def gen_bool(rng, depth, same_type=None):
         return c
     k = rng.choice(["and", "or"])
     t = same_type or (rng.choice(OBJ_TYPES) if k == "and" or rng.random() < 0.7 else None)
-    return (k, [gen_bool(rng, depth - 1, t) for _ in range(rng.choice([2, 2, 3]))])
+    kids = [gen_bool(rng, depth - 1, t) for _ in range(rng.choice([2, 2, 3]))]
+    if k == "and" and t and rng.random() < 0.12:
+        # an operand that is a chain of alternatives over several object types, the shared one anywhere in it (also beyond the
+        # first two): the AND can still be satisfied with the shared type, so the pattern must be accepted like any other
+        others = [x for x in OBJ_TYPES if x != t]
+        alts = [gen_bool(rng, 0, rng.choice(others)) for _ in range(rng.choice([2, 2, 3]))]
+        alts.insert(rng.randrange(len(alts) + 1), gen_bool(rng, 0, t))
+        kids[rng.randrange(len(kids))] = ("or", alts)
+    return (k, kids)
 
 
 def gen_obs(rng, depth, bool_depth=2):
